@@ -402,7 +402,7 @@ PROPS = {
     },
     'C17': {
         'engines': [('discovery', 300, 6000, ['-shardsize', '50'])],
-        'rule': 'incl. RACES: an update of one configured job is paused inside translateTargets (after it read the job's configuration, before it stores; the pause is a logrus hook on its own log line, no code hook) while a reload removes that job or keeps it - observed after the reload and after the update completes, handed to the model as reload-then-update (linearisation); histories of 3-8 (3-14 thorough) ops on the REAL TargetsDiscovery.Run (fed through its input channel) + ApplyConfig, with the real '
+        'rule': 'incl. RACES: an update of one configured job is paused inside translateTargets (after it read the configuration of the job, before it stores; the pause is a logrus hook on its own log line, no code hook) while a reload removes that job or keeps it - observed after the reload and after the update completes, handed to the model as reload-then-update (linearisation); histories of 3-8 (3-14 thorough) ops on the REAL TargetsDiscovery.Run (fed through its input channel) + ApplyConfig, with the real '
                 'Explore fed from ActiveTargetsChan and reloaded alongside (as cmd/kvass wires them): reloads over 3 jobs (each present 3/4, config '
                 'version keep-all or drop-marked), full and partial updates (0-2 groups x 0-3 targets per job, addresses disjoint between jobs, 1/4 '
                 'marked for dropping, duplicates inside and across groups), updates for an unknown job. Observed after every op: ActiveTargets, '
